@@ -13,6 +13,7 @@ package rig
 import (
 	"crypto/md5"
 	"fmt"
+	"net"
 	"os"
 	"os/exec"
 	"path/filepath"
@@ -173,8 +174,18 @@ func AgentKillSweep(bin string, base string, every int, emit func(Ev)) error {
 		if killAt > 0 {
 			sys, path = lst.Calls[killAt-1].Name, filepath.Base(lst.Calls[killAt-1].Path)
 		}
+		// Had the run done all its work (both steps and the exit handler) when it was killed? Taken from what this run
+		// did, not from the position of the final write in the listing run: the system-call sequence is not the same in
+		// every run (the agent's delayed "running" record may or may not be written, before or after the final one)
+		workDone := false
+		for _, steps := range before {
+			if len(steps) == 3 {
+				workDone = true
+			}
+		}
+		_ = lastHistWrite
 		emit(Ev{"kind": "kill", "k": k, "ncalls": len(lst.Calls), "sys": sys, "path": path, "killed": res.Killed,
-			"finalWritten": killAt == 0 || killAt > lastHistWrite, "latest": status, "latestErr": lerr, "histFiles": nhist,
+			"finalWritten": killAt == 0 || workDone, "latest": status, "latestErr": lerr, "histFiles": nhist,
 			"restartExit": exitCode(err2), "restartRan": newReqs == 1, "restartHist": len(e.histFiles()) - nhist, "latestAfterRestart": status2,
 			"latestErrAfterRestart": lerr2, "restartOutput": trunc(string(out2), 200)})
 		e.cleanup()
@@ -253,7 +264,14 @@ func SecondStartSweep(bin string, base string, every int, emit func(Ev)) error {
 		// start is released and the second one is awaited afterwards
 		blocked := false
 		doneB := make(chan struct{})
+		sockLive := false
 		onPark := func() {
+			// is the first start's socket still there at this moment? (the position of its closing unlink in the listing
+			// run is not reliable: the number of history writes before it varies from run to run)
+			if c, derr := net.DialTimeout("unix", sockName(e), 300*time.Millisecond); derr == nil {
+				c.Close()
+				sockLive = true
+			}
 			statusDuring, _ = e.latest()
 			histAtB = len(e.histFiles())
 			// (through a shell that leaves the exit status in a file: the supervisor's wait4(-1) may reap this child)
@@ -323,7 +341,7 @@ func SecondStartSweep(bin string, base string, every int, emit func(Ev)) error {
 		}
 		c := lst.Calls[k-1]
 		emit(Ev{"kind": "second", "k": k, "ncalls": len(lst.Calls), "sys": c.Name, "path": filepath.Base(c.Path),
-			"afterProbe": k > connectIdx, "committed": k >= commitIdx, "afterBind": k > bindIdx, "afterShutdown": lastSockUnlink > 0 && k >= lastSockUnlink,
+			"afterProbe": k > connectIdx, "committed": k >= commitIdx, "afterBind": k > bindIdx, "afterShutdown": k > bindIdx && !sockLive, "sockLive": sockLive,
 			"runsThatExecuted": len(reqs), "secondBlocked": blocked, "interleaved": interleaved, "exitA": res.ExitCode, "exitB": exitB, "histNewDuringB": histAfterB - histAtB,
 			"histFiles": len(e.histFiles()), "statusWhileParked": statusDuring, "statusEnd": statusEnd, "statusEndErr": errEnd, "outB": outB})
 		e.cleanup()
